@@ -102,7 +102,7 @@ def parseItem? (s : String) : Option Item :=
   match words s with
   | "R" :: evs => (evs.mapM parseEv?).map .region
   | "T" :: cells =>
-    (cells.mapM (fun t => do
+    (cells.mapM (fun (t : String) => do
       let body := (t.drop 1).toString
       if t.toList.head? != some 'f' then none
       let (c, o, v) ← parseAt? body
